@@ -18,9 +18,86 @@ type Config struct {
 	PageSize    uint32
 	MaxSize     uint64
 	WriteBuffer uint
+	// RootOff != 0: the queue header lives at this byte offset of the root page (Delegate.Root returns a page id
+	// AND an offset); a second queue (the neighbour, 2 events) keeps its header at offset 0 of the same page
+	RootOff uintptr `json:",omitempty"`
+}
+
+// offsetDelegate is a standalone delegate whose queue header sits at a byte offset of the root page.
+type offsetDelegate struct {
+	pq.Delegate
+	page txfile.PageID
+	off  uintptr
+}
+
+func (d *offsetDelegate) Root() (txfile.PageID, uintptr) { return d.page, d.off }
+
+// offsetQueue prepares the queue header at cfg.RootOff (first open: plus the neighbour queue at offset 0).
+func (e *Engine) offsetQueue(base pq.Delegate) (pq.Delegate, error) {
+	rootID, _ := base.Root()
+	off := e.Cfg.RootOff
+	tx, err := e.File.Begin()
+	if err != nil {
+		return nil, err
+	}
+	defer tx.Close()
+	page, err := tx.Page(rootID)
+	if err != nil {
+		return nil, err
+	}
+	if err := page.Load(); err != nil {
+		return nil, err
+	}
+	buf, err := page.Bytes()
+	if err != nil {
+		return nil, err
+	}
+	fresh := true
+	for _, b := range buf[off : off+uintptr(pq.SzRoot)] {
+		if b != 0 {
+			fresh = false
+		}
+	}
+	if fresh {
+		hdr := pq.MakeRoot()
+		copy(buf[off:], hdr[:])
+		if err := page.MarkDirty(); err != nil {
+			return nil, err
+		}
+		if err := tx.Commit(); err != nil {
+			return nil, err
+		}
+		// the neighbour: two events in the queue at offset 0
+		nq, err := pq.New(base, pq.Settings{WriteBuffer: 0})
+		if err != nil {
+			return nil, err
+		}
+		w, err := nq.Writer()
+		if err != nil {
+			return nil, err
+		}
+		for i := 0; i < 2; i++ {
+			if _, err := w.Write([]byte("neighbour")); err != nil {
+				return nil, err
+			}
+			if err := w.Next(); err != nil {
+				return nil, err
+			}
+		}
+		if err := w.Flush(); err != nil {
+			return nil, err
+		}
+		if err := nq.Close(); err != nil {
+			return nil, err
+		}
+	}
+	return &offsetDelegate{Delegate: base, page: rootID, off: off}, nil
 }
 
 func (c Config) String() string {
+	if c.RootOff != 0 {
+		return fmt.Sprintf("ps=%d max=%d wbuf=%d rootoff=%d", c.PageSize, c.MaxSize, c.WriteBuffer, c.RootOff)
+	}
 	return fmt.Sprintf("ps=%d max=%d wbuf=%d", c.PageSize, c.MaxSize, c.WriteBuffer)
 }
 
@@ -145,6 +222,11 @@ func (e *Engine) attach() error {
 	del, err := pq.NewStandaloneDelegate(e.File)
 	if err != nil {
 		return err
+	}
+	if e.Cfg.RootOff != 0 {
+		if del, err = e.offsetQueue(del); err != nil {
+			return err
+		}
 	}
 	q, err := pq.New(del, pq.Settings{
 		WriteBuffer: e.Cfg.WriteBuffer,
@@ -290,8 +372,7 @@ func (e *Engine) apply(op Op) string {
 
 	case "event":
 		// a complete event of n bytes in one or several writes
-		// (a producer whose Write failed does not complete the event: an event of 0 bytes is outside the
-		// queue's contract - the reader can not tell it from "no more events")
+		// (a producer whose Write failed does not complete the event)
 		if res := e.apply(Op{Kind: "write", N: op.N, Seed: op.Seed}); res != "" {
 			return res
 		}
@@ -360,11 +441,8 @@ func (e *Engine) apply(op Op) string {
 			e.fail("Reader.Next: event #%d has %d bytes, reader says %d", e.ReadPos, len(want), sz)
 			return "mismatch"
 		}
-		if len(want) == 0 {
-			// an empty event is indistinguishable from "no event" for the reader API (size 0)
-			e.ReadPos++
-			return ""
-		}
+		// (an empty event: Next reports size 0 like for "no more events", the reader stands in the event - no bytes
+		// left - and moves on with the following Next)
 		e.InEvent = true
 		e.EventLeft = want
 		return ""
@@ -392,9 +470,9 @@ func (e *Engine) apply(op Op) string {
 			e.fail("Reader.Read failed: %v", err)
 			return pqKind(err)
 		}
-		if !e.InEvent {
+		if !e.InEvent || len(e.EventLeft) == 0 {
 			if k != 0 {
-				e.fail("Reader.Read returns %d bytes outside of an event", k)
+				e.fail("Reader.Read returns %d bytes outside of an event / in an empty event", k)
 			}
 			return ""
 		}
@@ -425,13 +503,13 @@ func (e *Engine) apply(op Op) string {
 			return "skipped"
 		}
 		for guard := 0; guard < 1<<20; guard++ {
-			if !e.InEvent {
+			if !e.InEvent || len(e.EventLeft) == 0 {
 				before := e.ReadPos
 				e.apply(Op{Kind: "rnext"})
 				if !e.InEvent && e.ReadPos == before {
 					break
 				}
-				if !e.InEvent {
+				if !e.InEvent || len(e.EventLeft) == 0 {
 					continue
 				}
 			}
@@ -626,6 +704,7 @@ func (e *Engine) RawStream() (stream []byte, payload, startPos, events, pages in
 	if err != nil {
 		return nil, 0, 0, 0, 0, err
 	}
+	rb = rb[e.Cfg.RootOff:]
 	le := func(b []byte) uint64 {
 		var v uint64
 		for i := 7; i >= 0; i-- {
@@ -708,6 +787,7 @@ func (e *Engine) Chain() (cs ChainState, err error) {
 	if err != nil {
 		return cs, err
 	}
+	rb = rb[e.Cfg.RootOff:]
 	le := func(b []byte) uint64 {
 		var v uint64
 		for i := len(b) - 1; i >= 0; i-- {
